@@ -243,7 +243,9 @@ def load_cases(pid: str = None) -> List[Dict[str, Any]]:
     props = sorted({c['property'] for c in cases}) if pid is None else [pid]
     for pr in props:
         for how in ('unparse', 'shift', 'log', 'rename'):
-            cases.append({'id': f'{pr}-g-{how}', 'property': pr, 'kind': 'twin', 'transform': how, 'edits': []})
+            # renaming every local at once takes away the names many rules are anchored on: "cannot decide" is an acceptable answer
+            # there (kind idiom), a violation is not
+            cases.append({'id': f'{pr}-g-{how}', 'property': pr, 'kind': 'idiom' if how == 'rename' else 'twin', 'transform': how, 'edits': []})
     return cases
 
 
